@@ -161,17 +161,26 @@ static void do_work_local(struct bulk_receiver *r, Shape n, chunk_t cs, size_t w
   g_local++; if (w == g_vw) g_vw_local++;
 }
 static size_t get_local_worker_thread_num(void) { return g_local_worker; }
-static void ts_emplace(struct op_state_t *op) { op->ts_index = 1; g_emplaced = true; }
+/* the predecessor's values `std::forward<Ts>(ts)...`: an opaque pack that can be consumed (moved from) once */
+static bool g_pack_moved;
+static int vx_fwd_pack(void)
+{
+  VX_ASSERT(!g_pack_moved, "the predecessor's values are forwarded while still intact (not after they were moved from)");
+  g_pack_moved = true;
+  return 1;
+}
+static void ts_emplace(struct op_state_t *op, int pack) { VX_ASSERT(pack == 1, "the values stored are the predecessor's values"); op->ts_index = 1; g_emplaced = true; }
+static void recv_set_value_pack(int pack) { VX_ASSERT(pack == 1, "the values forwarded are the predecessor's values"); recv_set_value(); }
 //@FUNC
 void set_value(struct bulk_receiver *self)
 __CPROVER_requires(self->op_state == vx_op && vx_op->num_worker_threads >= 1 && vx_op->num_worker_threads <= W_MAX && vx_op->shape >= 0 && (uint64_t) vx_op->shape <= N_MAX)
 __CPROVER_requires(g_local_worker < vx_op->num_worker_threads && g_vw < vx_op->num_worker_threads)
-__CPROVER_requires(g_inits == 0 && g_tasks == 0 && g_local == 0 && g_vw_init == 0 && g_vw_task == 0 && g_vw_local == 0 && g_set_value == 0 && !g_emplaced)
+__CPROVER_requires(g_inits == 0 && g_tasks == 0 && g_local == 0 && g_vw_init == 0 && g_vw_task == 0 && g_vw_local == 0 && g_set_value == 0 && !g_emplaced && !g_pack_moved)
 /* n == 0 completes immediately with the values and starts nothing */
 __CPROVER_ensures(vx_op->shape == 0 ==> (g_set_value == 1 && g_inits == 0 && g_tasks == 0 && g_local == 0))
 /* otherwise: no direct signal; every worker's queue is initialised once; every worker gets exactly one share: a task, or (the calling worker) the inline share */
 __CPROVER_ensures(vx_op->shape != 0 ==> (g_set_value == 0 && g_vw_init == 1 && g_vw_task + g_vw_local == 1 && g_local == 1 && (g_vw_local == 1) == (g_vw == g_local_worker)))
-__CPROVER_assigns(g_inits, g_tasks, g_local, g_vw_init, g_vw_task, g_vw_local, g_set_value, g_emplaced, g_arg_nc, g_arg_cs, vx_op->ts_index)
+__CPROVER_assigns(g_inits, g_tasks, g_local, g_vw_init, g_vw_task, g_vw_local, g_set_value, g_emplaced, g_pack_moved, g_arg_nc, g_arg_cs, vx_op->ts_index)
 //@LIFT body
 #endif
 
@@ -233,7 +242,7 @@ void harness(void)
   struct bulk_receiver r; r.op_state = &op;
   op.num_worker_threads = nondet_size(); op.shape = nondet_Shape(); op.ts_index = 0;
   g_local_worker = nondet_size(); g_vw = nondet_u32();
-  g_vw_init = g_vw_task = g_vw_local = 0; g_emplaced = false; g_arg_nc = 0; g_arg_cs = 0;
+  g_vw_init = g_vw_task = g_vw_local = 0; g_emplaced = false; g_pack_moved = false; g_arg_nc = 0; g_arg_cs = 0;
   set_value(&r);
   if (op.shape == 0) VX_REACH("n0_immediate"); else VX_REACH("work_distributed");
   if (g_vw_local) VX_REACH("victim_is_local"); if (g_vw_task) VX_REACH("victim_gets_task");
